@@ -63,6 +63,8 @@ func resultKey(r *gen.Result) map[string]string {
 
 // evalC12 runs all variants of the case and compares every result with the
 // first one. variants: repeat count, shuffled renderings, relocation.
+var c12CLIOnly bool
+
 func evalC12(cases []*gen.Case, repeats int, useCLI, crossStyle bool, cliRunsOpt ...int) (bool, string, error) {
 	base := cases[0]
 	cliRuns := 2
@@ -182,7 +184,8 @@ func evalC12(cases []*gen.Case, repeats int, useCLI, crossStyle bool, cliRunsOpt
 			}
 		}
 		// the CLI runs with cwd = tree root and relative arguments: compare with the in-process run of the same style
-		if ok, why := sourcesEqual(resultKey(&rel1), outs[0]); !ok {
+		// (not when the case spells one output path in two ways: the library takes output names as given)
+		if ok, why := sourcesEqual(resultKey(&rel1), outs[0]); !ok && !c12CLIOnly {
 			return true, "CLI process output differs from the in-process run with the same arguments: " + why, nil
 		}
 	}
@@ -200,6 +203,7 @@ func TestC12(t *testing.T) {
 		if strings.Contains(r.Note, "cli24") {
 			runs = 24
 		}
+		c12CLIOnly = strings.Contains(r.Note, "clionly")
 		return evalC12(r.Cases, 8, strings.Contains(r.Note, "cli"), strings.Contains(r.Note, "crossstyle"), runs)
 	}
 	if c.RunReplay(eval) {
@@ -289,6 +293,7 @@ func TestC12(t *testing.T) {
 			}
 		}
 		cliRuns := 0
+		cliOnly := false
 		switch sc {
 		case 4, 5:
 			// a struct-literal default with a nested list next to an enum table: the bytes of either
@@ -311,6 +316,15 @@ func TestC12(t *testing.T) {
 			if m.files[0].Root.Kind == model.KObject {
 				addCollidingDefs(rt, c, m.files[0], rapid.SampledFrom([]string{"string", "numeric", "enum", "required"}).Draw(rt, "collidefamily"))
 				c.Count("scenario.colliding_definition_names")
+			}
+		case 8:
+			// two ids mapped to ONE output file whose path is spelled in two ways
+			if len(m.cfg.Mappings) >= 2 && m.cfg.Mappings[0].Output != "" && m.cfg.Mappings[0].Output != "-" {
+				m.cfg.Mappings[1].Output = "./" + m.cfg.Mappings[0].Output
+				m.cfg.Mappings[1].Package = m.cfg.Mappings[0].Package
+				cliRuns = 24
+				cliOnly = true
+				c.Count("scenario.one_output_two_spellings")
 			}
 		case 6:
 			// mapping options for namespace ids (prefixes of real ids) next to the exact ones, through
@@ -349,6 +363,7 @@ func TestC12(t *testing.T) {
 		if !crossStyle {
 			c.ExcludedMap()["paths.argument_also_ref_target"]++
 		}
+		c12CLIOnly = cliOnly
 		failed, msg, err := evalC12(cases, 8, useCLI, crossStyle, cliRuns)
 		if err != nil {
 			c.Infra(err.Error())
@@ -381,6 +396,9 @@ func TestC12(t *testing.T) {
 			}
 			if cliRuns > 2 {
 				note = "cli24"
+			}
+			if cliOnly {
+				note += ",clionly"
 			}
 			if crossStyle {
 				note += ",crossstyle"
